@@ -184,6 +184,14 @@ class Run:
                 continue
             if v == "cex":
                 call = r.get("cex_call")
+                if call is None and "NotDeterministic" in str(r.get("cex_message")):
+                    # CrossHair re-executes a decision prefix and got a different path: the code under test kept state
+                    # between executions.  The harness module replays a scripted concrete history on the real code.
+                    rep = run_replay(c.path, c.func, "@nondeterministic")
+                    self.replays += 1
+                    r["replay"] = rep
+                    self._handle(rep, known_keys, c.name, "@nondeterministic", r.get("cex_message"))
+                    continue
                 if call is None:
                     self.inconclusive.append("%s: counterexample without parsable call: %s" % (c.name, r.get("cex_message")))
                     continue
